@@ -787,3 +787,38 @@ pub fn property() -> Property {
         ],
     }
 }
+
+/// (skeletons, deformers) for the robustness checks (C18)
+pub fn seed_files(ctx: &Ctx, n: usize) -> (Vec<(String, Vec<u8>)>, Vec<(String, Vec<u8>)>) {
+    let ss = skel_strategy(ctx);
+    let ps = pbd_strategy(ctx);
+    let mut skels = vec![];
+    let mut pbds = vec![];
+    let mut k = 0u64;
+    while (skels.len() < n || pbds.len() < n) && k < 300 {
+        let s = draw_fixed(&ss, 0xC16_5EED + k);
+        let p = draw_fixed(&ps, 0xC16_E5ED + k);
+        k += 1;
+        if skels.len() < n && s.bones.len() >= 3 {
+            let b = build_skeleton_file(&s);
+            if b.len() < 6000 {
+                skels.push((format!("gen{}", skels.len()), b));
+            }
+        }
+        if pbds.len() < n && p.nodes.len() >= 3 {
+            let b = build_pbd(&p);
+            if b.len() < 6000 {
+                pbds.push((format!("gen{}", pbds.len()), b));
+            }
+        }
+    }
+    (skels, pbds)
+}
+
+pub fn seed_tera(plates: &[(i16, i16)]) -> Vec<u8> {
+    tera_bytes(1, 128, 0, 0, plates)
+}
+
+pub fn seed_lgb(name: &str) -> Vec<u8> {
+    lgb_bytes(u32::from_le_bytes(*b"LGB1"), u32::from_le_bytes(*b"LGP1"), 7, name)
+}
